@@ -99,4 +99,12 @@ TEXTS = {
                     "exactly the documented variables. Exhaustive over injection points of each explored case, sampling over cases."),
         level_note=("Trusted: the snapshot comparison of the harness; the hooks in /repo (guard GSTLEARN_VERIF, add-only) only return the failure code of their call "
                     "site. Failures that cannot be produced at these points (e.g. mid-way through a single allocation) are not explored.")),
+    "C08": dict(
+        engine="rapidcheck",
+        technique="property-based testing (rapidcheck): round-trip oracle write -> read -> compare getters and generated queries -> write again (string equality), per serialisable class, through streams and through files",
+        design_ref="DESIGN.md §5 C08",
+        level_text=("Exploration: thousands (quick) to 600 000 (thorough) generated objects over 15 class families are saved, reloaded and compared field by "
+                    "field, by behaviour on generated queries and by re-serialisation. Counter-example search with shrinking."),
+        level_note=("Trusted: the public getters used for comparison, rapidcheck. Equivalence is asserted over what the format stores plus behaviour derived from it; "
+                    "objects are small (<= a few dozen values).")),
 }
